@@ -477,5 +477,53 @@ func extractC04() *lean {
 		})
 	}
 	l.def("parseAuthorizedKeysConds", "List String", leanStrList(pakConds), pakConds)
+	// ---------------- middleware.go: is the middleware stateless? struct fields, receiver kind, writes / synchronised stores
+	var mwFields []string
+	for _, d := range mw.Decls {
+		if gd, ok := d.(*ast.GenDecl); ok && gd.Tok == token.TYPE {
+			for _, sp := range gd.Specs {
+				ts := sp.(*ast.TypeSpec)
+				if st, ok := ts.Type.(*ast.StructType); ok && ts.Name.Name == "middlewareImpl" {
+					for _, f := range st.Fields.List {
+						for _, n := range f.Names {
+							mwFields = append(mwFields, n.Name+" "+c04Src(f.Type))
+						}
+					}
+				}
+			}
+		}
+	}
+	l.def("middlewareImplFields", "List String", leanStrList(mwFields), mwFields)
+	var mwMutations []string
+	for _, d := range mw.Decls {
+		fd, ok := d.(*ast.FuncDecl)
+		if !ok || fd.Recv == nil || len(fd.Recv.List) == 0 || len(fd.Recv.List[0].Names) == 0 {
+			continue
+		}
+		recv := fd.Recv.List[0].Names[0].Name
+		if _, ptr := fd.Recv.List[0].Type.(*ast.StarExpr); ptr {
+			mwMutations = append(mwMutations, fd.Name.Name+": pointer receiver")
+		}
+		ast.Inspect(fd, func(n ast.Node) bool {
+			switch x := n.(type) {
+			case *ast.AssignStmt:
+				for _, lhs := range x.Lhs {
+					if strings.HasPrefix(c04Src(lhs), recv+".") {
+						mwMutations = append(mwMutations, fd.Name.Name+": "+c04Src(x))
+					}
+				}
+			case *ast.CallExpr: // m.<field>.<method>(…): a call on something the middleware holds (cache, map, mutex …)
+				if strings.HasPrefix(c04Src(x.Fun), recv+".") && strings.Count(c04Src(x.Fun), ".") >= 2 {
+					mwMutations = append(mwMutations, fd.Name.Name+": "+c04Src(x.Fun))
+				}
+			case *ast.IncDecStmt:
+				if strings.HasPrefix(c04Src(x.X), recv+".") {
+					mwMutations = append(mwMutations, fd.Name.Name+": "+c04Src(x))
+				}
+			}
+			return true
+		})
+	}
+	l.def("middlewareStateUses", "List String", leanStrList(mwMutations), mwMutations)
 	return l
 }
